@@ -122,6 +122,7 @@ func runForced(c *hx.Ctx, id string, r *hx.Rng) {
 	inFlightEvicted := 0
 	blockedWaits := 0
 	doubleFetch := 0
+	convoys := 0
 	fail := func(f string, a ...any) {
 		if bad == "" {
 			bad = fmt.Sprintf(f, a...)
@@ -222,6 +223,38 @@ func runForced(c *hx.Ctx, id string, r *hx.Rng) {
 			alive = false
 			break
 		}
+		// convoy: while t waits for the block it still holds the cache lock, so any operation a third
+		// goroutine starts now (a get of another position, a setMaxBlocks) must wait at the cache lock and
+		// go ahead only after the hand-over (the Lean machine: the event is a no-op while cacheOwner = t).
+		// The third goroutine's operation is chosen so that it cannot itself end up waiting for a block.
+		u := -1
+		if r.Chance(50) {
+			var idle []int
+			for x := 0; x < nt; x++ {
+				if x == t || st[x] != fIdle || next[x] >= len(progs[x]) {
+					continue
+				}
+				ox := progs[x][next[x]]
+				if _, locked := lockedPos[ox.v]; ox.kind == 's' || (ox.v != o.v && !locked) {
+					idle = append(idle, x)
+				}
+			}
+			if len(idle) > 0 {
+				u = hx.Pick(r, idle)
+			}
+		}
+		if u >= 0 {
+			cur[u] = progs[u][next[u]]
+			next[u]++
+			events = append(events, fmt.Sprint(u))
+			ws[u].cmd <- cur[u]
+			if _, _, ok := ws[u].wait(3 * time.Millisecond); ok {
+				fail("goroutine %d %s went ahead although goroutine %d holds the cache lock while it waits for the block of position %d", u, cur[u], t, o.v)
+				alive = false
+				break
+			}
+			convoys++
+		}
 		events = append(events, fmt.Sprint(holder))
 		ws[holder].release <- struct{}{}
 		if alive = settle(holder); !alive {
@@ -233,6 +266,12 @@ func runForced(c *hx.Ctx, id string, r *hx.Rng) {
 		}
 		if st[t] == fParked {
 			doubleFetch++
+		}
+		if u >= 0 {
+			events = append(events, fmt.Sprint(u))
+			if alive = settle(u); !alive {
+				break
+			}
 		}
 		refresh()
 	}
@@ -265,6 +304,7 @@ func runForced(c *hx.Ctx, id string, r *hx.Rng) {
 	c.StatN("forced.block_evicted_while_fetch_in_flight", inFlightEvicted)
 	c.StatN("forced.get_blocked_on_block_lock", blockedWaits)
 	c.StatN("forced.waiter_refetched_after_failed_fetch", doubleFetch)
+	c.StatN("forced.third_goroutine_blocked_on_cache_lock", convoys)
 	if inFlightEvicted > 0 || blockedWaits > 0 {
 		c.Distinct("forced " + desc)
 	}
